@@ -1,6 +1,6 @@
 SPECIFICATION Spec
 CONSTANTS
-  RelayClasses = {"empty", "plain", "escape", "html", "script", "newline", "nonascii", "long", "mixed"}
+  RelayClasses = {"empty", "plain", "escape", "html", "script", "newline", "nonascii", "long", "mixed", "srcdict"}
 INVARIANTS RunAgrees Emit
 PROPERTIES Terminates
 CHECK_DEADLOCK FALSE
